@@ -21,6 +21,7 @@ use easy_ml::numeric::extra::{Real, RealRef, Sqrt};
 use easy_ml::numeric::{Numeric, NumericRef};
 use easy_ml::tensors::views::{TensorRef, TensorView};
 use easy_ml::tensors::Tensor;
+use easy_ml::differentiation::Trace;
 use std::fmt::Display;
 
 // ---------------------------------------------------------------------------------------------
@@ -41,6 +42,42 @@ impl ParseElem for Rat {
             Some((n, d)) => Rat::new(n.parse().expect("rat num"), d.parse().expect("rat den")),
             None => Rat::new(s.parse().expect("rat int"), 1),
         }
+    }
+}
+
+/// What the harness needs of an element beyond the library's traits: a complete rendering and
+/// a complete equality (for `Trace` the library's `Display`/`==` look at the number only).
+pub trait Elem: Sized {
+    fn show(&self) -> String;
+    fn same(&self, other: &Self) -> bool;
+}
+impl Elem for Fp {
+    fn show(&self) -> String { self.to_string() }
+    fn same(&self, other: &Fp) -> bool { self == other }
+}
+impl Elem for Rat {
+    fn show(&self) -> String { self.to_string() }
+    fn same(&self, other: &Rat) -> bool { self == other }
+}
+/// a forward-mode dual number over the prime field: `number~derivative` on the wire
+impl Elem for Trace<Fp> {
+    fn show(&self) -> String { format!("{}~{}", self.number, self.derivative) }
+    fn same(&self, other: &Trace<Fp>) -> bool {
+        self.number == other.number && self.derivative == other.derivative
+    }
+}
+impl ParseElem for Trace<Fp> {
+    fn parse_elem(s: &str) -> Trace<Fp> {
+        let (n, d) = s.split_once('~').expect("number~derivative");
+        Trace { number: Fp::parse_elem(n), derivative: Fp::parse_elem(d) }
+    }
+}
+
+pub fn show_vals<T: Elem>(v: &[T]) -> String {
+    if v.is_empty() {
+        "-".to_string()
+    } else {
+        v.iter().map(|x| x.show()).collect::<Vec<_>>().join(",")
     }
 }
 
@@ -88,6 +125,8 @@ pub enum Input<T> {
     Transposed(Tensor<T, 2>),
     /// embedded in a larger tensor at offset (1, 2); presented through `range`
     Embedded(Tensor<T, 2>, usize, usize),
+    /// stored with both dimensions reversed; presented through `reverse`
+    Reversed(Tensor<T, 2>),
 }
 
 pub fn build_input<T: Clone>(
@@ -108,6 +147,15 @@ pub fn build_input<T: Clone>(
                 }
             }
             Input::Transposed(Tensor::from([(names[0], cols), (names[1], rows)], t))
+        }
+        "reverse" => {
+            let mut t = Vec::with_capacity(a.len());
+            for i in (0..rows).rev() {
+                for j in (0..cols).rev() {
+                    t.push(a[i * cols + j].clone());
+                }
+            }
+            Input::Reversed(Tensor::from([(names[0], rows), (names[1], cols)], t))
         }
         "range" => {
             let (br, bc) = (rows + 2, cols + 3);
@@ -145,6 +193,10 @@ macro_rules! dispatch {
             },
             Input::Transposed(tensor) => {
                 let $t = tensor.transpose_view([$names[1], $names[0]]);
+                $on_tensor
+            }
+            Input::Reversed(tensor) => {
+                let $t = tensor.reverse(&[$names[0], $names[1]]);
                 $on_tensor
             }
             Input::Embedded(tensor, rows, cols) => {
@@ -210,18 +262,18 @@ impl easy_ml::numeric::extra::Pi for Rat {
 // exact checks of the defining identities (on the implementation's factors)
 // ---------------------------------------------------------------------------------------------
 
-fn is_lower<T: Numeric>(l: &Grid<T>) -> bool {
+fn is_lower<T: Numeric + Elem>(l: &Grid<T>) -> bool {
     let n = l.shape[0].1;
-    (0..n).all(|i| ((i + 1)..l.shape[1].1).all(|j| l.at(i, j) == T::zero()))
+    (0..n).all(|i| ((i + 1)..l.shape[1].1).all(|j| l.at(i, j).same(&T::zero())))
 }
 
-fn is_upper<T: Numeric>(l: &Grid<T>) -> bool {
-    (0..l.shape[0].1).all(|i| (0..l.shape[1].1.min(i)).all(|j| l.at(i, j) == T::zero()))
+fn is_upper<T: Numeric + Elem>(l: &Grid<T>) -> bool {
+    (0..l.shape[0].1).all(|i| (0..l.shape[1].1.min(i)).all(|j| l.at(i, j).same(&T::zero())))
 }
 
 /// (L·Lᵀ)[i,j] = A[i,j] on the lower triangle (`strict`: below the diagonal only); for a symmetric
 /// `A` the full lower triangle is the whole identity `L·Lᵀ = A`.
-fn chol_identity<T: Numeric>(l: &Grid<T>, a: &[T], strict: bool) -> bool {
+fn chol_identity<T: Numeric + Elem>(l: &Grid<T>, a: &[T], strict: bool) -> bool {
     let n = l.shape[0].1;
     for i in 0..n {
         for j in 0..=i {
@@ -232,7 +284,7 @@ fn chol_identity<T: Numeric>(l: &Grid<T>, a: &[T], strict: bool) -> bool {
             for k in 0..n {
                 s = s + l.at(i, k) * l.at(j, k);
             }
-            if s != a[i * n + j] {
+            if !s.same(&a[i * n + j]) {
                 return false;
             }
         }
@@ -240,7 +292,7 @@ fn chol_identity<T: Numeric>(l: &Grid<T>, a: &[T], strict: bool) -> bool {
     true
 }
 
-fn ldlt_identity<T: Numeric>(l: &Grid<T>, d: &Grid<T>, a: &[T]) -> bool {
+fn ldlt_identity<T: Numeric + Elem>(l: &Grid<T>, d: &Grid<T>, a: &[T]) -> bool {
     let n = l.shape[0].1;
     for i in 0..n {
         for j in 0..=i {
@@ -248,7 +300,7 @@ fn ldlt_identity<T: Numeric>(l: &Grid<T>, d: &Grid<T>, a: &[T]) -> bool {
             for k in 0..n {
                 s = s + l.at(i, k) * d.at(k, k) * l.at(j, k);
             }
-            if s != a[i * n + j] {
+            if !s.same(&a[i * n + j]) {
                 return false;
             }
         }
@@ -256,11 +308,11 @@ fn ldlt_identity<T: Numeric>(l: &Grid<T>, d: &Grid<T>, a: &[T]) -> bool {
     true
 }
 
-fn is_unit_lower<T: Numeric>(l: &Grid<T>) -> bool {
-    is_lower(l) && (0..l.shape[0].1).all(|i| l.at(i, i) == T::one())
+fn is_unit_lower<T: Numeric + Elem>(l: &Grid<T>) -> bool {
+    is_lower(l) && (0..l.shape[0].1).all(|i| l.at(i, i).same(&T::one()))
 }
 
-fn is_diagonal<T: Numeric>(d: &Grid<T>) -> bool {
+fn is_diagonal<T: Numeric + Elem>(d: &Grid<T>) -> bool {
     is_lower(d) && is_upper(d)
 }
 
@@ -308,47 +360,162 @@ fn qr_tensor_facts<T: Clone + PartialEq + Display>(f: &linear_algebra::QRDecompo
 }
 
 // ---------------------------------------------------------------------------------------------
+// producer → consumer: the factors are handed to the library's own transposition and product
+// (both APIs, allocating and in-place transposition); the products must be the entrywise
+// Σ_k L[i,k]·(D[k,k]·)L[j,k] of the very entries read off the factor (reported in `aux`)
+// ---------------------------------------------------------------------------------------------
+
+fn product_entries<T: Numeric + Elem>(l: &Grid<T>, d: Option<&Grid<T>>) -> Vec<T> {
+    let n = l.shape[0].1;
+    let mut out = Vec::with_capacity(n * n);
+    for i in 0..n {
+        for j in 0..n {
+            // the library's `scalar_product` reduces without a leading zero; in the exact types
+            // that is the same value
+            let mut s = T::zero();
+            for k in 0..n {
+                let left = match d {
+                    Some(d) => l.at(i, k) * d.at(k, k),
+                    None => l.at(i, k),
+                };
+                s = s + left * l.at(j, k);
+            }
+            out.push(s);
+        }
+    }
+    out
+}
+
+fn same_entries<T: Elem>(a: &[T], b: &[T]) -> bool {
+    a.len() == b.len() && a.iter().zip(b.iter()).all(|(x, y)| x.same(y))
+}
+
+fn consumers_matrix<T>(l: &Matrix<T>, d: Option<&Matrix<T>>) -> bool
+where
+    T: Numeric + Elem,
+    for<'a> &'a T: NumericRef<T>,
+{
+    let names = ["r", "c"];
+    let want = product_entries(&Grid::of_matrix(l, names), d.map(|d| Grid::of_matrix(d, names)).as_ref());
+    let left = match d {
+        Some(d) => l * d,
+        None => l.clone(),
+    };
+    let allocating = &left * l.transpose();
+    let mut in_place = l.clone();
+    in_place.transpose_mut();
+    let through_mut = &left * &in_place;
+    // the in-place transpose read in storage order, and added elementwise to the allocating one
+    let g = Grid::of_matrix(l, names);
+    let n = g.shape[0].1;
+    let transposed: Vec<T> = (0..n * n).map(|k| g.at(k % n, k / n)).collect();
+    let doubled: Vec<T> = transposed.iter().map(|x| x.clone() + x.clone()).collect();
+    let sum = &in_place + l.transpose();
+    same_entries(&allocating.row_major_iter().collect::<Vec<T>>(), &want)
+        && same_entries(&through_mut.row_major_iter().collect::<Vec<T>>(), &want)
+        && same_entries(&in_place.row_major_iter().collect::<Vec<T>>(), &transposed)
+        && same_entries(&sum.row_major_iter().collect::<Vec<T>>(), &doubled)
+}
+
+fn consumers_tensor<T>(l: &Tensor<T, 2>, d: Option<&Tensor<T, 2>>) -> bool
+where
+    T: Numeric + Elem,
+    for<'a> &'a T: NumericRef<T>,
+{
+    let shape = l.shape();
+    let swapped = [shape[1].0, shape[0].0];
+    let want = product_entries(&Grid::of_tensor(l), d.map(|d| Grid::of_tensor(d)).as_ref());
+    // D carries the same names as L, so L·D needs D's row dimension renamed away and back
+    let left = match d {
+        Some(d) => {
+            let n = shape[0].1;
+            let mut ld = Tensor::empty(shape, T::zero());
+            {
+                let (li, di) = (l.index(), d.index());
+                let mut out = ld.index_mut();
+                for i in 0..n {
+                    for j in 0..n {
+                        *out.get_ref_mut([i, j]) = li.get_ref([i, j]) * di.get_ref([j, j]);
+                    }
+                }
+            }
+            ld
+        }
+        None => l.clone(),
+    };
+    let allocating = &left * l.transpose(swapped);
+    let mut in_place = l.clone();
+    in_place.transpose_mut(swapped);
+    let through_mut = &left * &in_place;
+    // the in-place transpose consumed in storage order: by its own iterator, converted into a
+    // matrix, and added elementwise to the allocating transpose (a transposition that only permutes
+    // strides is invisible to index reads, not to these)
+    let g = Grid::of_tensor(l);
+    let n = shape[0].1;
+    let transposed: Vec<T> = (0..n * n).map(|k| g.at(k % n, k / n)).collect();
+    let doubled: Vec<T> = transposed.iter().map(|x| x.clone() + x.clone()).collect();
+    let sum = &in_place + l.transpose(swapped);
+    let as_matrix = in_place.clone().into_matrix();
+    same_entries(&allocating.iter().collect::<Vec<T>>(), &want)
+        && same_entries(&through_mut.iter().collect::<Vec<T>>(), &want)
+        && allocating.shape() == shape
+        && in_place.shape() == shape
+        && same_entries(&in_place.iter().collect::<Vec<T>>(), &transposed)
+        && same_entries(&as_matrix.row_major_iter().collect::<Vec<T>>(), &transposed)
+        && same_entries(&sum.iter().collect::<Vec<T>>(), &doubled)
+}
+
+// ---------------------------------------------------------------------------------------------
 // running the real code
 // ---------------------------------------------------------------------------------------------
 
 fn run_chol<T>(rows: usize, cols: usize, a: Vec<T>, names: [&'static str; 2], via: &str, exact_sqrt: bool) -> String
 where
-    T: Numeric + Sqrt<Output = T> + Display,
+    T: Numeric + Sqrt<Output = T> + Elem,
     for<'a> &'a T: NumericRef<T>,
 {
     let input = build_input(via, rows, cols, names, &a, T::one() + T::one());
     let r = catch(|| {
         dispatch!(input, via, names,
-            |m| linear_algebra::cholesky_decomposition::<T>(&m).map(|l| Grid::of_matrix(&l, names)),
-            |t| linear_algebra::cholesky_decomposition_tensor::<T, _, _>(t).map(|l| Grid::of_tensor(&l)))
+            |m| linear_algebra::cholesky_decomposition::<T>(&m)
+                .map(|l| (Grid::of_matrix(&l, names), consumers_matrix::<T>(&l, None))),
+            |t| linear_algebra::cholesky_decomposition_tensor::<T, _, _>(t)
+                .map(|l| (Grid::of_tensor(&l), consumers_tensor::<T>(&l, None))))
     });
     match r {
         Err(k) => panic_str(k),
         Ok(None) => "none".to_string(),
-        Ok(Some(l)) => {
+        Ok(Some((l, consumers))) => {
             let facts = if exact_sqrt {
                 let pos = (0..rows).all(|i| l.at(i, i) > T::zero());
                 format!("lower={} posdiag={} ident={}", ok(is_lower(&l)), ok(pos), ok(chol_identity(&l, &a, false)))
             } else {
                 format!("lower={} offdiag={}", ok(is_lower(&l)), ok(chol_identity(&l, &a, true)))
             };
-            format!("some shape={} {} ## L={}", show_shape(&l.shape), facts, show_elems(&l.data))
+            format!(
+                "some shape={} {} ## L={} consumers={}",
+                show_shape(&l.shape), facts, show_vals(&l.data), ok(consumers)
+            )
         }
     }
 }
 
 fn run_ldlt<T>(rows: usize, cols: usize, a: Vec<T>, names: [&'static str; 2], via: &str) -> String
 where
-    T: Numeric + Display + PartialEq,
+    T: Numeric + Display + PartialEq + Elem,
     for<'a> &'a T: NumericRef<T>,
 {
     let input = build_input(via, rows, cols, names, &a, T::one() + T::one());
     let r = catch(|| {
         dispatch!(input, via, names,
-            |m| linear_algebra::ldlt_decomposition::<T>(&m)
-                .map(|f| (Grid::of_matrix(&f.l, names), Grid::of_matrix(&f.d, names), ldlt_matrix_facts(&f))),
-            |t| linear_algebra::ldlt_decomposition_tensor::<T, _, _>(t)
-                .map(|f| (Grid::of_tensor(&f.l), Grid::of_tensor(&f.d), ldlt_tensor_facts(&f))))
+            |m| linear_algebra::ldlt_decomposition::<T>(&m).map(|f| {
+                let facts = format!("{} consumers={}", ldlt_matrix_facts(&f), ok(consumers_matrix::<T>(&f.l, Some(&f.d))));
+                (Grid::of_matrix(&f.l, names), Grid::of_matrix(&f.d, names), facts)
+            }),
+            |t| linear_algebra::ldlt_decomposition_tensor::<T, _, _>(t).map(|f| {
+                let facts = format!("{} consumers={}", ldlt_tensor_facts(&f), ok(consumers_tensor::<T>(&f.l, Some(&f.d))));
+                (Grid::of_tensor(&f.l), Grid::of_tensor(&f.d), facts)
+            }))
     });
     match r {
         Err(k) => panic_str(k),
@@ -360,8 +527,8 @@ where
             ok(is_unit_lower(&l)),
             ok(is_diagonal(&d)),
             ok(ldlt_identity(&l, &d, &a)),
-            show_elems(&l.data),
-            show_elems(&d.data),
+            show_vals(&l.data),
+            show_vals(&d.data),
             facts
         ),
     }
@@ -626,6 +793,8 @@ impl Runner {
         match (alg, ty) {
             ("chol", "fp") => run_chol::<Fp>(rows, cols, parse_elems(toks[5]), names, via, false),
             ("chol", "rat") => run_chol::<Rat>(rows, cols, parse_elems(toks[5]), names, via, true),
+            ("chol", "tr") => run_chol::<Trace<Fp>>(rows, cols, parse_elems(toks[5]), names, via, false),
+            ("ldlt", "tr") => run_ldlt::<Trace<Fp>>(rows, cols, parse_elems(toks[5]), names, via),
             ("ldlt", "fp") => run_ldlt::<Fp>(rows, cols, parse_elems(toks[5]), names, via),
             ("ldlt", "rat") => run_ldlt::<Rat>(rows, cols, parse_elems(toks[5]), names, via),
             ("qr", "fp") => run_qr_fp(rows, cols, parse_elems(toks[5]), names, via),
@@ -638,7 +807,7 @@ impl Runner {
 // generation
 // ---------------------------------------------------------------------------------------------
 
-const VIAS: [&str; 6] = ["matrix", "tensor", "owned", "tensor_view", "view", "range"];
+const VIAS: [&str; 7] = ["matrix", "tensor", "owned", "tensor_view", "view", "range", "reverse"];
 const NAME_PAIRS: [[&str; 2]; 6] =
     [["r", "c"], ["a", "b"], ["row", "column"], ["column", "row"], ["y", "x"], ["c", "r"]];
 
@@ -1073,7 +1242,7 @@ pub fn gen(g: &mut Gen) {
             let two = adversarial_names(&mut g.rng, 2);
             pairs.push([two[0], two[1]]);
         }
-        let tensor_vias = ["tensor", "owned", "tensor_view", "view", "range"];
+        let tensor_vias = ["tensor", "owned", "tensor_view", "view", "range", "reverse"];
         for names in pairs {
             let n = g.rng.range(2, 3);
             let spd = loop {
@@ -1092,6 +1261,43 @@ pub fn gen(g: &mut Gen) {
                     alg, r, c, show_elems(a), names[0], names[1], via
                 ));
                 g.count(&format!("adversarial-names.{}", alg));
+            }
+        }
+    }
+    // ---- wrapper element type: forward-mode dual numbers over Fp (`Trace<Fp>`) ----------------------
+    // The routines are generic: at `Trace<Fp>` every entry carries a derivative.  The inputs have a
+    // zero *number* with a non-zero *derivative* below the diagonal of the first column, so the
+    // factor has entries that compare equal to zero and still contribute to the derivative parts.
+    for n in 2..=(if g.thorough { 5 } else { 4 }) {
+        for rep in 0..(if g.thorough { 9 } else { 6 }) {
+            let numbers = loop {
+                let mut a: Vec<Fp> = (0..n * n).map(|_| rand_fp(g)).collect();
+                // zero numbers below the diagonal of column 0 (all of them, or one)
+                for i in 1..n {
+                    // all of them / only the first / only the last (a zero-valued entry then meets
+                    // non-zero partners in the later inner sums)
+                    if rep % 3 == 0 || (rep % 3 == 1 && i == 1) || (rep % 3 == 2 && i == n - 1) {
+                        a[i * n] = Fp(0);
+                    }
+                }
+                symmetrise(n, &mut a);
+                if steer_chol::<Fp>(n, &a, None).0.is_none() {
+                    break a;
+                }
+            };
+            let mut derivatives: Vec<Fp> = (0..n * n).map(|_| rand_fp(g)).collect();
+            symmetrise(n, &mut derivatives);
+            let shown = numbers
+                .iter()
+                .zip(derivatives.iter())
+                .map(|(x, d)| format!("{}~{}", x, d))
+                .collect::<Vec<_>>()
+                .join(",");
+            for alg in ["chol", "ldlt"] {
+                for via in ["matrix", "tensor", "view"] {
+                    g.op(format!("@ {} tr {} {} {} names=r,c via={}", alg, n, n, shown, via));
+                }
+                g.count(&format!("{}.trace-elements.zero-valued-factor-entries", alg));
             }
         }
     }
